@@ -251,6 +251,14 @@ def expect (method : Bytes) (isH2 : Bool) (ct accept : Option Bytes) : Expect :=
     else .status 405
   | none => if isH2 then .pass else .status 400
 
+/-- The value of a single-valued field (`content-type`, `accept`) in a header list: its first
+occurrence. -/
+def fieldOf (name : Bytes) (h : List Pair) : Option Bytes := (TMap.getAll name h).head?
+
+/-- `expect` for a request given by its method, version and whole header list. -/
+def expectFor (method : Bytes) (isH2 : Bool) (h : List Pair) : Expect :=
+  expect method isH2 (fieldOf (str "content-type") h) (fieldOf (str "accept") h)
+
 def grpcContentType : Bytes := str "application/grpc"
 
 def responseContentType (text : Bool) : Bytes :=
